@@ -57,10 +57,12 @@ def verify(sid):
         print(o1[-1500:], o2[-1500:], o3[-800:])
     return 0 if ok else 1
 
-def try_(sid, tier="quick"):
+def try_(sid, tier="quick", prop_override=None):
+    """prop_override: run ANOTHER property's check against this change (a change made to break one property is often caught by the
+    check of a neighbouring property that shares the code); recorded under detection["<tier>@<prop>"]."""
     d = os.path.join(SEEDED, sid)
     meta = json.load(open(os.path.join(d, "meta.json")))
-    prop = meta["property"]
+    prop = prop_override or meta.get("property_for_check") or meta["property"]
     rc, o = sh("git -C /repo status --porcelain")
     assert o.strip() == "", "/repo not clean: " + o
     rc, o = sh("git -C /repo apply %s" % os.path.join(d, "patch.diff"))
@@ -76,7 +78,7 @@ def try_(sid, tier="quick"):
         if os.path.exists(ev + ".keep"):
             os.replace(ev + ".keep", ev)
     viol = [l for l in o.splitlines() if l.startswith("VIOLATION")]
-    meta.setdefault("detection", {})[tier] = {"exit": rc, "violation_lines": len(viol), "detected": rc == 1 and len(viol) > 0,
+    meta.setdefault("detection", {})[tier if prop == meta["property"] else "%s@%s" % (tier, prop)] = {"exit": rc, "violation_lines": len(viol), "detected": rc == 1 and len(viol) > 0,
                                               "at_verif_commit": sh("git -C %s rev-parse --short HEAD" % ROOT)[1].strip()}
     json.dump(meta, open(os.path.join(d, "meta.json"), "w"), indent=1)
     print(sid, prop, tier, "exit", rc, "DETECTED" if rc == 1 and viol else "MISSED")
@@ -92,4 +94,4 @@ if __name__ == "__main__":
     elif a[0] == "verify":
         sys.exit(verify(a[1]))
     elif a[0] == "try":
-        sys.exit(try_(a[1], a[2] if len(a) > 2 else "quick"))
+        sys.exit(try_(a[1], a[2] if len(a) > 2 else "quick", a[3] if len(a) > 3 else None))
